@@ -22,6 +22,7 @@ type LoopSpec struct {
 	Invariants []Clause
 	Decreases  *Clause
 	Unroll     int // >0: bounded unrolling (complete if the unwinding assertion holds)
+	Isolate    bool // the arbitrary-iteration state keeps no contract-level quantified facts from before the loop
 }
 
 type AtStmt struct {
@@ -460,6 +461,8 @@ func (cs *Contracts) parseFile(fset *token.FileSet, f *ast.File, pkgPath string)
 				if c, ok := mkClause(r2, loc); ok {
 					ls.Decreases = &c
 				}
+			case "isolate":
+				ls.Isolate = true
 			case "unroll":
 				n, err := strconv.Atoi(r2)
 				if err != nil {
